@@ -122,9 +122,12 @@ package vm
 
 // The interpreter loop. Body: identical to go-ethereum v1.12.0 modulo ctx (E2).
 // This contract is the inductive hypothesis of the frame recursion
-// Call/create -> Run -> opCall/opCreate -> Call/create: nested frames go through
-// the verified frame functions, which restore the call-tree cursor, depth and
-// read-only flag; ASSUMED here, listed in the evidence.
+// Call/create -> Run -> opCall/opCreate -> Call/create. It is VERIFIED: the loop invariant is that the cursor, the
+// depth (+1) and the read-only flag are those of entry; every instruction preserves them because every function with
+// the signature of executionFunc is verified against that type's contract (zz_verif_contracts_ops.go), the call /
+// create instructions through the contracts of the frame functions below. The mutual recursion is the usual modular
+// partial-correctness induction (each body is checked against the callee contracts, never against itself).
+// Only gas-monotone stays assumed (it needs the pairing of each instruction with its dynamic-gas function).
 //@ func (*vm.EVMInterpreter).Run(in, ctx, contract, input, readOnly) (ret, err)
 //@   verify
 //@   kind mutating
@@ -137,6 +140,7 @@ package vm
 //@   ensures depth-kept [C07]: in.evm.depth == old(in.evm.depth)
 //@   ensures readonly-kept [C07]: in.readOnly == old(in.readOnly)
 //@   ensures tree-grows [C07]: in.evm.tracer.callTree.count >= old(in.evm.tracer.callTree.count)
+//@   ensures gas-monotone [C02 C06 assumed]: contract.Gas <= old(contract.Gas)
 //@   modifies *
 //@ end
 
